@@ -10,7 +10,7 @@ open EPV.CmpSpec EPV.CmpFind
 macro "gp_simp" : tactic => `(tactic|
   simp [pairGeneral, iterCheck, pairSpec, castUntyped, valueOp, isBoolA, isStrLike3, isStr, isQN, isUri, isInteger,
      Atom.isDur, numRank, castNum, pyOp, pyBinop, subclassFirst, dunder, Atom.pyNum, numCmp, liftPy, dCmp_eq_six, isEqNe, isUA,
-     sCmp, iCmp, bCmp, cmpBy_eq_six, Atom.isDT, Atom.isBin, Atom.dtVal, Atom.binVal, Atom.durVal, durInstanceOf,
+     sCmp, iCmp, bCmp, cmpBy_eq_six, Atom.isDT, Atom.isBin, Atom.dt, Atom.binVal, Atom.durVal, durInstanceOf,
      binOrdered, strLtS, strEqS, octLt, D.isNaN])
 
 theorem six_swap_str (op : Op) (s t : Str) :
@@ -352,7 +352,7 @@ theorem pairGeneral_conforms (m : Mode) (op : Op) (a b : Atom)
     (h1 : trigTol false op a b = false) (h2 : trigPromotion false a b = false)
     (h3 : trigLenient m op a b = false) (h4 : trigUntyped op a b = false)
     (h5 : pairSpec m op a b ≠ .error .unsupported) (h6 : pairGeneral m op a b ≠ .error .unsupported)
-    (h7 : ymdOrd op a b = false) :
+    (h7 : ymdOrd op a b = false) (h8 : dtConsistent a b = true) :
     pairGeneral m op a b = pairSpec m op a b := by
   cases hi : numRank a with
   | some i =>
@@ -375,6 +375,7 @@ theorem pairGeneral_conforms (m : Mode) (op : Op) (a b : Atom)
       | lenient_contra h3
       | (simp [trigUntyped, isTemporal, Atom.isDT, Atom.isDur] at h4; done)
       | (gp_simp; done)
+      | (simp [dtConsistent, Atom.isDT, Atom.dt] at h8; gp_simp; simp [dtCompare_eq_six _ _ _ h8]; done)
       | skip
     case str.str s t => exact (pg_str_str m op s t).1
     case str.uri s t => exact (pg_str_str m op s t).2.1
